@@ -77,7 +77,7 @@ def gen_plan(rng, index, tier):
     steps = []
     kinds = ["swap", "swap", "cascade", "discharge_fresh", "discharge_pool", "add", "remove", "remove"]
     if cfg["rejected"]:
-        kinds += ["add_occupied", "remove_absent", "readd_present", "readd_removed", "add_copy", "add_stale_counter"]
+        kinds += ["add_occupied", "remove_absent", "readd_present", "readd_removed", "add_copy", "add_stale_counter", "swap_with_pool", "discharge_twice"]
     for _ in range(rng.randint(4, 40)):
         op = rng.choice(kinds)
         s = {"op": op, "a": rng.randrange(1000), "b": rng.randrange(1000)}
@@ -85,7 +85,7 @@ def gen_plan(rng, index, tier):
             s["idx"] = [rng.randrange(1000) if rng.random() > 0.15 else None for _ in range(rng.randint(2, 5))]
             if s["idx"][0] is None:
                 s["idx"][0] = 0
-        if op in ("discharge_fresh", "add", "add_occupied", "add_stale_counter"):
+        if op in ("discharge_fresh", "add", "add_occupied", "add_stale_counter", "discharge_twice"):
             s["type"] = rng.choice(["igniter fuel", "outer fuel"])
         if op == "remove":
             s["discharge"] = rng.random() < 0.6
@@ -377,6 +377,21 @@ class World:
                 return False
             dup = copy.deepcopy(self.h2o[src])
             return self.expect_refusal(k, st, lambda: core.add(dup, core.spatialGrid[p[0], p[1], 0]))
+        if op == "swap_with_pool":
+            # an in-core swap asked for an assembly that sits in the pool (a discharge swap is the call for that)
+            a = self.pick_core(st["a"])
+            if a is None or not m.pool:
+                return False
+            b = sorted(m.pool)[st["b"] % len(m.pool)]
+            return self.expect_refusal(k, st, lambda: fh.swapAssemblies(self.h2o[a], self.h2o[b]))
+        if op == "discharge_twice":
+            # the outgoing assembly has left the core already
+            cands = sorted(m.purged | set(m.pool))
+            if not cands:
+                return False
+            out = cands[st["a"] % len(cands)]
+            inc = core.createAssemblyOfType(assemType=st["type"])
+            return self.expect_refusal(k, st, lambda: fh.dischargeSwap(inc, self.h2o[out]))
         if op == "remove_absent":
             cands = sorted(m.purged | set(m.pool))
             if not cands:
